@@ -294,6 +294,13 @@ impl Reference {
                 if !ephemeral[i] && sp.fillers.iter().any(|f| f.1 == 4) {
                     static_reject = Some("assert_ephemeral_on_confirmed_coin");
                 }
+                // fillers 6 and 7 are unknown conditions (a lock opcode written with a redundant
+                // leading zero byte, and a two-byte opcode): ignored, unless unknown conditions
+                // are forbidden
+                let no_unknown = matches!(case.flagset, 2 | 3 | 4 | 8);
+                if no_unknown && sp.fillers.iter().any(|f| f.1 == 6 || f.1 == 7) {
+                    static_reject = Some("unknown_condition_in_strict_mode");
+                }
             }
         }
         Reference { cls, ephemeral, static_reject }
@@ -568,6 +575,19 @@ fn build_tree(a: &mut Allocator, case: &Case, b: &Built) -> NodePtr {
                     let op = a.new_atom(&[52]).unwrap();
                     let z = a.nil();
                     list(a, &[op, z])
+                }
+                6 => {
+                    // ASSERT_BEFORE_HEIGHT_ABSOLUTE 0 (never satisfiable) with the opcode written
+                    // as 0x0057: not a canonical opcode, so an unknown condition, not a lock
+                    let op = a.new_atom(&[0, 87]).unwrap();
+                    let z = a.nil();
+                    list(a, &[op, z])
+                }
+                7 => {
+                    // a two-byte opcode whose low byte is ASSERT_HEIGHT_ABSOLUTE, argument 2^32-1
+                    let op = a.new_atom(&[1, 83]).unwrap();
+                    let v = a.new_atom(&[0, 0xff, 0xff, 0xff, 0xff]).unwrap();
+                    list(a, &[op, v])
                 }
                 _ => {
                     let op = a.new_atom(&[1]).unwrap();
@@ -1195,7 +1215,7 @@ impl C03 {
                     (0..nf)
                         .map(|_| {
                             let pos = rng.below(conds.len() as u64 + 1) as u8;
-                            let mut kind = rng.below(6) as u8;
+                            let mut kind = rng.below(8) as u8;
                             // ASSERT_EPHEMERAL mostly where it is true
                             if kind == 4 && parent_spend.is_none() && rng.chance(9, 10) {
                                 kind = 0;
